@@ -129,7 +129,7 @@ package scan
 //   otherwise           -> exactly one packet carrying the buffer that was filled for this request
 // (send? = the guarded send: sent, or the scan was cancelled)
 //@ func (*packetGenerator).Packets$1
-//@   props C07 C13 C12
+//@   props C07 C13 C12 C01
 //@   observe NewSerializeBuffer, Fill
 //@   loop 0 row cancel:  [ctxdone ; close out] -> exit
 //@   loop 0 row closed:  [recv in as (r, false) ; close out] -> exit
@@ -156,7 +156,7 @@ package scan
 // merger: every element received from a worker is forwarded once; the output is closed only after all
 // multiplexers have returned
 //@ func MergeBufferDataChan$1
-//@   props C07 C12
+//@   props C07 C12 C01
 //@   observe (*sync.WaitGroup).Done
 //@   loop 0 row cancel:  [ctxdone ; call Done(_)] -> exit
 //@   loop 0 row closed:  [recv c as (e, false) ; call Done(_)] -> exit
